@@ -100,6 +100,7 @@ func untilSentinel(ls []string) []string {
 
 type dgramRig struct {
 	p     *recParser
+	eh    *recHandler
 	lines prometheus.Counter
 	send  func([]byte)
 }
@@ -110,22 +111,26 @@ func newUDPRig() *dgramRig {
 	conn, err := net.ListenUDP("udp", &net.UDPAddr{IP: net.IPv4(127, 0, 0, 1)})
 	must(err)
 	conn.SetReadBuffer(4 << 20)
-	p := &recParser{seen: make(chan string, 100000)}
+	p := &recParser{seen: make(chan string, 100000), events: true}
+	eh := &recHandler{}
 	lines := ctr()
-	l := &listener.StatsDUDPListener{Conn: conn, EventHandler: nullHandler{}, Logger: nopLogger, LineParser: p,
+	l := &listener.StatsDUDPListener{Conn: conn, EventHandler: eh, Logger: nopLogger, LineParser: p,
 		UDPPackets: ctr(), UDPPacketDrops: ctr(), LinesReceived: lines, EventsFlushed: ctr(),
 		SampleErrors:    *prometheus.NewCounterVec(prometheus.CounterOpts{Name: "se"}, []string{"reason"}),
 		SamplesReceived: ctr(), TagErrors: ctr(), TagsReceived: ctr(), UdpPacketQueue: make(chan []byte, 1000)}
 	go l.Listen()
 	c, err := net.DialUDP("udp", nil, conn.LocalAddr().(*net.UDPAddr))
 	must(err)
-	return &dgramRig{p: p, lines: lines, send: func(b []byte) { c.Write(b) }}
+	return &dgramRig{p: p, eh: eh, lines: lines, send: func(b []byte) { c.Write(b) }}
 }
 
 func (r *dgramRig) run(payload string) string {
 	r.p.mu.Lock()
 	r.p.lines = nil
 	r.p.mu.Unlock()
+	r.eh.mu.Lock()
+	r.eh.names = nil
+	r.eh.mu.Unlock()
 	before := ctrVal(r.lines)
 	if len(payload) > 0 { // an empty datagram carries nothing to frame; the generator avoids it
 		r.send([]byte(payload))
@@ -139,7 +144,19 @@ func (r *dgramRig) run(payload string) string {
 				r.p.mu.Lock()
 				ls := untilSentinel(r.p.lines)
 				r.p.mu.Unlock()
-				return fmt.Sprintf("%s lines=%d", linesStr(ls), ctrVal(r.lines)-before-1)
+				// the sentinel's own event is queued right after it was parsed: give the handler a moment
+				var qs []string
+				for i := 0; i < 200; i++ {
+					r.eh.mu.Lock()
+					qs = append([]string(nil), r.eh.names...)
+					r.eh.mu.Unlock()
+					if len(qs) > 0 && qs[len(qs)-1] == sentinel {
+						break
+					}
+					time.Sleep(50 * time.Microsecond)
+				}
+				qs = untilSentinel(qs)
+				return fmt.Sprintf("%s lines=%d queued=%d qsame=%d", linesStr(ls), ctrVal(r.lines)-before-1, len(qs), sameStrings(qs, ls))
 			}
 		case <-deadline:
 			return "timeout"
@@ -161,9 +178,10 @@ func frameUnixgram(payload string) string {
 		path := filepath.Join(d, "s")
 		conn, err := net.ListenUnixgram("unixgram", &net.UnixAddr{Net: "unixgram", Name: path})
 		must(err)
-		p := &recParser{seen: make(chan string, 100000)}
+		p := &recParser{seen: make(chan string, 100000), events: true}
+		eh := &recHandler{}
 		lines := ctr()
-		l := &listener.StatsDUnixgramListener{Conn: conn, EventHandler: nullHandler{}, Logger: nopLogger, LineParser: p,
+		l := &listener.StatsDUnixgramListener{Conn: conn, EventHandler: eh, Logger: nopLogger, LineParser: p,
 			UnixgramPackets: ctr(), LinesReceived: lines, EventsFlushed: ctr(),
 			SampleErrors:    *prometheus.NewCounterVec(prometheus.CounterOpts{Name: "se"}, []string{"reason"}),
 			SamplesReceived: ctr(), TagErrors: ctr(), TagsReceived: ctr()}
@@ -171,7 +189,7 @@ func frameUnixgram(payload string) string {
 		c, err := net.DialUnix("unixgram", nil, &net.UnixAddr{Net: "unixgram", Name: path})
 		must(err)
 		os.RemoveAll(d) // both ends are open; the path is no longer needed
-		unixRig = &dgramRig{p: p, lines: lines, send: func(b []byte) { c.Write(b) }}
+		unixRig = &dgramRig{p: p, eh: eh, lines: lines, send: func(b []byte) { c.Write(b) }}
 	}
 	return unixRig.run(payload)
 }
